@@ -126,6 +126,15 @@ def check_input(torch, c, stats):
         want = torch.ones_like(A) if n == 1 else torch.eye(n, dtype=dt)
         if not torch.equal(Q, want):
             out.append((case, "diagonal-flagged input does not yield the identity"))
+        # the flag takes precedence for every eigenvector method, also for a diagonal that is not sorted ascending
+        Ad = torch.tensor(np.diag(lam[::-1].copy()), dtype=dt)
+        for est_kind in ("zero", "identity", "perm"):
+            E = torch.zeros(n, n, dtype=dt) if est_kind == "zero" else torch.tensor(mx.basis(est_kind, n), dtype=dt)
+            for cfgq in (QRConfig(), QRConfig(max_iterations=5, tolerance=0.0)):
+                Qd = mf.matrix_eigenvectors(Ad, eigenvectors_estimate=E, eigenvector_computation_config=cfgq, is_diagonal=True)
+                stats["calls"] = stats.get("calls", 0) + 1
+                if not torch.equal(Qd, want):
+                    out.append((dict(c, method="diag_qr", est=est_kind, iters=cfgq.max_iterations), "diagonal-flagged input does not yield the identity with the QR method"))
     # ---- QR
     wtrue, Vtrue = np.linalg.eigh(An)
     gaps_ok = []
@@ -178,6 +187,26 @@ def check_input(torch, c, stats):
                 break
         if not ok:
             out.append((case, f"result is not an orthogonal-iteration update of the estimate for any k <= {iters} (staircase test, leading indices {lead})"))
+        # exact iteration count: float64 reference of the stopping rule (relative change of the estimate > tolerance),
+        # decided only where every reference error is a factor 10 away from the tolerance and the spectrum is simple
+        if c["sp"] == "distinct" and est.startswith("rot") and iters > 1:
+            Qr, kref, decided = E0.copy(), 0, True
+            err = np.inf
+            while kref < iters and err > qtol:
+                Qn = np.linalg.qr(An @ Qr)[0]
+                err = np.linalg.norm(Qr - Qn) / np.linalg.norm(Qr)
+                if qtol > 0 and 0.1 * qtol < err < 10 * qtol:
+                    decided = False
+                Qr = Qn
+                kref += 1
+            amp = (np.abs(wtrue).max() / np.abs(wtrue).min()) ** kref * n * u
+            if decided and amp < 1e-3:
+                rqr = np.einsum("ij,ik,kj->j", Qr, An, Qr)
+                Qr = Qr[:, np.argsort(rqr)]
+                dev = max(min(np.linalg.norm(Q[:, j] - Qr[:, j]), np.linalg.norm(Q[:, j] + Qr[:, j])) for j in range(n))
+                stats["exact_k_checked"] = stats.get("exact_k_checked", 0) + 1
+                if not dev <= max(1e3 * amp, 1e-4 if dtype == "f32" else 1e-9):
+                    out.append((case, f"result differs from the orthogonal iteration stopped by the configured rule (reference stops after k={kref} of max {iters}, tolerance {qtol}): column deviation {dev:.2e}"))
         if est in ("exact", "exact_perm"):
             # Fixed point (up to column signs).  Orthogonal iteration amplifies the rounding error of the estimate by
             # (lam_max/lam_min)^k per column, and for a singular A the QR factor of A @ Q is not unique, so the clause is
